@@ -15,7 +15,7 @@ text that is really there.
   R2  stable alias   a local bound once to `self.<attr>` where <attr> is only ever stored in __init__ is replaced by
                      `self.<attr>`.
   R3  idioms         "{}_{}".format(a, b) -> f"{a}_{b}";  not (a == b) -> a != b (also is / in);
-                     `while True: if C: break; B` -> `while not C: B`;  `if C: pass else: B` -> `if not C: B`;  a local `x: T = E` -> `x = E`;  set(<generator>) / list(<generator>) -> the comprehension;
+                     `while True: if C: break; B` -> `while not C: B`;  `if C: pass else: B` -> `if not C: B`;  a local `x: T = E` -> `x = E`;  set(<generator>) / list(<generator>) -> the comprehension;  `if bool(E)` / `not bool(E)` -> `if E` / `not E`;
                      `await L.acquire(); try: B finally: L.release()` -> `async with L: B` (same for the sync form);
                      `except E as e: if isinstance(e, T): A else: B` -> `except T as e: A  except E as e: B`;
                      `try: A except ..: <always leaves> else: E` -> `try: A except ..` followed by E.
@@ -416,8 +416,17 @@ class _Idioms(ast.NodeTransformer):
             return _fix(ast.JoinedStr(values=values), node)
         return node
 
+    @staticmethod
+    def _unbool(e):
+        """bool(E) where only the truth value is used -> E"""
+        while isinstance(e, ast.Call) and isinstance(e.func, ast.Name) and e.func.id == 'bool' and len(e.args) == 1 and not e.keywords:
+            e = e.args[0]
+        return e
+
     def visit_UnaryOp(self, node):
         node = self.generic_visit(node)
+        if isinstance(node.op, ast.Not):
+            node.operand = self._unbool(node.operand)
         if isinstance(node.op, ast.Not) and isinstance(node.operand, ast.Compare) and len(node.operand.ops) == 1:
             op = node.operand.ops[0]
             flip = {ast.Eq: ast.NotEq, ast.NotEq: ast.Eq, ast.Is: ast.IsNot, ast.IsNot: ast.Is, ast.In: ast.NotIn, ast.NotIn: ast.In}
@@ -484,6 +493,7 @@ class _Idioms(ast.NodeTransformer):
 
     def visit_If(self, node):
         node = self.generic_visit(node)
+        node.test = self._unbool(node.test)
         if len(node.body) == 1 and isinstance(node.body[0], ast.Pass) and node.orelse:
             node.test = _fix(_negate(node.test), node.test)
             node.body, node.orelse = node.orelse, []
@@ -1503,5 +1513,6 @@ def normalize_module(name, tree, sibling_consts=None):
         if isinstance(n, (ast.FunctionDef, ast.AsyncFunctionDef)):
             report['single_use'] += _single_use_pass(n)
             report['aliases'] += _attr_alias_pass(n)
+    tree = _Idioms().visit(tree)
     ast.fix_missing_locations(tree)
     return tree, report
